@@ -57,6 +57,7 @@ func (p *P) ColdRuns(tier string) int {
 func (p *P) Init(env *core.Env) error {
 	p.env = env
 	p.race = racelog.Open()
+	ops.SetScratch(env.Scratch)
 	if !env.Cold {
 		ops.WarmUp()
 	}
